@@ -127,6 +127,38 @@ func runC16(c *Ctx) {
 			ok = bytes.Equal(db, plain)
 		}
 		c.Check("decrypt_encrypt_identity", ok, "DecryptInnerData(EncryptInnerLeaseSet2(x))", [][]byte{plain}, "", fmt.Sprintf("err=%v", derr))
+		// the matching private key in every form the library says it accepts (value, pointer, 32 raw
+		// bytes), and the recipient key likewise on the encrypting side
+		if i < 6 {
+			privCopy := append(x25519.PrivateKey(nil), priv...)
+			forms := []struct {
+				name string
+				key  interface{}
+			}{{"pointer", &privCopy}, {"raw 32-byte slice", []byte(append([]byte(nil), priv...))}}
+			for _, f := range forms {
+				df, ef := els.DecryptInnerData(cookie[:], f.key)
+				okf := ef == nil && df != nil
+				if okf {
+					db, _ := df.Bytes()
+					okf = bytes.Equal(db, plain)
+				}
+				c.Check("decrypt_encrypt_identity", okf, "DecryptInnerData (private key as "+f.name+")", [][]byte{plain}, "", fmt.Sprintf("the matching private key given as %s: err=%v", f.name, ef))
+			}
+			pubCopy := append(x25519.PublicKey(nil), pub...)
+			pforms := []struct {
+				name string
+				key  interface{}
+			}{{"pointer", &pubCopy}, {"raw 32-byte slice", []byte(append([]byte(nil), pub...))}}
+			for _, f := range pforms {
+				enc2, ee := encrypted_leaseset.EncryptInnerLeaseSet2(&ls, cookie, f.key)
+				okf := ee == nil
+				if okf {
+					pt, ok2, _ := independentDecrypt(priv, enc2)
+					okf = ok2 && bytes.Equal(pt, plain)
+				}
+				c.Check("decrypt_encrypt_identity", okf, "EncryptInnerLeaseSet2 (recipient key as "+f.name+")", [][]byte{plain}, "", fmt.Sprintf("recipient key given as %s: err=%v", f.name, ee))
+			}
+		}
 		// a different private key
 		_, priv2, _ := x25519.GenerateKey(detRand{r})
 		d2, e2 := els.DecryptInnerData(cookie[:], priv2)
